@@ -231,6 +231,7 @@ func GenLayout(t *rapid.T, nRev int) Layout {
 		l.Filters = append(l.Filters, rapid.SampledFrom(filterChains).Draw(t, "chain"))
 	}
 	l.Predictor = b("predictor")
+	l.TIFFPred = b("tiffPredictor")
 	l.Length = rapid.SampledFrom([]string{"direct", "direct", "before", "after"}).Draw(t, "length")
 	l.LengthInObjStm = b("lengthInObjStm")
 	l.Split = rapid.IntRange(1, 3).Draw(t, "split")
@@ -240,6 +241,7 @@ func GenLayout(t *rapid.T, nRev int) Layout {
 	l.Pad = rapid.SampledFrom([]int{0, 0, 0, 3000, 4200, 9000, 20000}).Draw(t, "pad")
 	l.Depth = rapid.IntRange(1, 4).Draw(t, "depth")
 	l.FanOut = rapid.IntRange(1, 3).Draw(t, "fanout")
+	l.Unbalanced = rapid.Bool().Draw(t, "unbalanced")
 	l.BoxLevel = rapid.IntRange(0, 4).Draw(t, "boxLevel")
 	l.ResLevel = rapid.IntRange(0, 4).Draw(t, "resLevel")
 	l.RotLevel = rapid.IntRange(0, 4).Draw(t, "rotLevel")
@@ -290,6 +292,9 @@ func (l Layout) Knobs(nRev int) []string {
 	}
 	if l.EmptyPart {
 		k = append(k, "empty-part")
+	}
+	if l.Unbalanced && l.Depth > 1 {
+		k = append(k, "unbalanced-tree")
 	}
 	if l.Split > 1 {
 		k = append(k, "split")
